@@ -39,6 +39,8 @@ func TestC16(t *testing.T) {
 	for round := 0; round < rounds; round++ {
 		workloads.Gov(r, r.Rand(fmt.Sprintf("gov/%d", round)), nil)
 		workloads.GovLists(r, r.Rand(fmt.Sprintf("govlists/%d", round)), nil)
+		workloads.BtcGov(r, r.Rand(fmt.Sprintf("btcgov/%d", round)), nil)
+		workloads.Relayers(r, r.Rand(fmt.Sprintf("relayers/%d", round)), nil)
 		workloads.GenesisAll(r, r.Rand(fmt.Sprintf("genesis/%d", round)), nil)
 		for _, name := range []string{"eth", "bsc", "heco", "hsc", "pixie", "bytom", "msc"} {
 			workloads.EVM(r, r.Rand(fmt.Sprintf("evm/%s/%d", name, round)), nil, name, uint64(2000+round))
